@@ -9,4 +9,5 @@ c.param("initializer", T.Obj).param("initargs", T.Obj)
 c.returns(T.Tup(T.Obj, T.Obj))
 c.raises("prepare/non-callable-rejected", "TypeError", when="initializer is not None and not callable_(initializer)")
 c.modifies()
+c.trusted_summary = True
 c.note("summary used by ProcessPoolExecutor.__init__; the chaining helpers are verified separately")
